@@ -143,12 +143,13 @@ theorem bodiless_response_completes (servers : List Server) (s : St) (rp : Resp)
     let s' := serviceResponse servers true s
     s'.waited = false ∧ s'.outcome = s.outcome ∧
     ∃ e, s'.entries = s.entries ++ [e] ∧ e.body = [] ∧ e.status = some rp.status ∧ e.errored = false := by
-  simp [serviceResponse, hw, hp, hb, handle, hr, finish]
+  simp only [serviceResponse, hw, hp, hb, handle, hr, finish, afterIdle, Bool.not_true, Bool.false_eq_true, ↓reduceIte]
+  split <;> simp
 
 /-- C19-K2 regression (fixed in the tree, 3095720): a response to HEAD that announces `Transfer-Encoding: chunked` is
 complete at the blank line; the request behind it is sent and answered -/
 theorem chunked_bodiless_completes :
-    let servers : List Server := [⟨8101, [⟨200, none, lit "entity", 1, false⟩, ⟨200, none, lit "two", 0, false⟩]⟩]
+    let servers : List Server := [⟨8101, [⟨200, none, lit "entity", 1, false, false⟩, ⟨200, none, lit "two", 0, false, false⟩]⟩]
     let s := after false 8101 servers [⟨lit "HEAD", lit "/a", [], []⟩, ⟨lit "GET", lit "/b", [], []⟩] [true, true, true, true]
     s.outcome = .running ∧ s.waited = false ∧ s.entries.map (·.body) = [[], lit "two"] ∧ s.queue = [] := by
   decide
@@ -156,8 +157,8 @@ theorem chunked_bodiless_completes :
 /-- regression (fixed in the tree, 041b28b): the hop of a redirected HEAD is still a HEAD for the response parser — its
 response with a Content-Length is bodiless, the entry appears with the history attached and the queue moves on -/
 theorem redirected_head_completes :
-    let servers : List Server := [⟨8101, [⟨302, some ⟨false, 8101, lit "/r", []⟩, [], 0, false⟩, ⟨200, none, lit "entity", 0, false⟩,
-      ⟨200, none, lit "two", 0, false⟩]⟩]
+    let servers : List Server := [⟨8101, [⟨302, some ⟨false, 8101, lit "/r", []⟩, [], 0, false, false⟩, ⟨200, none, lit "entity", 0, false, false⟩,
+      ⟨200, none, lit "two", 0, false, false⟩]⟩]
     let s := after false 8101 servers [⟨lit "HEAD", lit "/a", [], []⟩, ⟨lit "GET", lit "/b", [], []⟩] [true, true, true, true]
     s.waited = false ∧ s.wire.map (·.method) = [lit "HEAD", lit "HEAD", lit "GET"] ∧
       s.entries.map (·.body) = [[], lit "two"] ∧ s.entries.map (fun e => e.redirects.map (·.status)) = [[302], []] := by
@@ -165,7 +166,7 @@ theorem redirected_head_completes :
 
 /-- the redirected request's own query arguments do not travel with the hop (test on a concrete world) -/
 theorem redirect_drops_old_args_witness :
-    let servers : List Server := [⟨8101, [⟨307, some ⟨false, 8101, lit "/landing", [(lit "name", lit "fame")]⟩, [], 0, false⟩]⟩]
+    let servers : List Server := [⟨8101, [⟨307, some ⟨false, 8101, lit "/landing", [(lit "name", lit "fame")]⟩, [], 0, false, false⟩]⟩]
     let s := after false 8101 servers [⟨lit "GET", lit "/start", [], [(lit "token", lit "abc"), (lit "page", lit "2")]⟩] [true, true, true]
     s.wire.map (·.path) = [lit "/start?token=abc&page=2", lit "/landing?name=fame"] ∧
       s.entries.map (·.rqargs) = [[(lit "name", lit "fame")]] := by
@@ -174,7 +175,7 @@ theorem redirect_drops_old_args_witness :
 /-- the refusal does happen (test on a concrete world): https client, server answers 302 → http://…:8102; the second
 queued request is still served on the https connection afterwards -/
 theorem refusal_witness :
-    let servers : List Server := [⟨8101, [⟨302, some ⟨false, 8102, lit "/r", []⟩, [], 0, false⟩, ⟨200, none, lit "ok", 0, false⟩]⟩, ⟨8102, []⟩]
+    let servers : List Server := [⟨8101, [⟨302, some ⟨false, 8102, lit "/r", []⟩, [], 0, false, false⟩, ⟨200, none, lit "ok", 0, false, false⟩]⟩, ⟨8102, []⟩]
     let s := after true 8101 servers [⟨lit "GET", lit "/a", [], []⟩, ⟨lit "GET", lit "/b", [], []⟩] [true, true, true]
     s.outcome = .running ∧ s.waited = false ∧ s.wire.map (·.port) = [8101, 8101] ∧
       s.entries.map (·.errored) = [true, false] ∧ s.entries.map origin = [some 0, some 1] ∧
@@ -184,7 +185,7 @@ theorem refusal_witness :
 /-- C19-K1 witness (known finding, replayed on the implementation): a response cut short after some body bytes is
 never completed; the request and everything behind it stay unanswered -/
 theorem truncated_response_sticks :
-    let servers : List Server := [⟨8101, [⟨200, none, lit "one", 3, false⟩]⟩]
+    let servers : List Server := [⟨8101, [⟨200, none, lit "one", 3, false, false⟩]⟩]
     let s := after false 8101 servers [⟨lit "GET", lit "/a", [], []⟩, ⟨lit "GET", lit "/b", [], []⟩] [true, true, true, true, true]
     s.outcome = .stuck ∧ s.waited = true ∧ s.entries = [] ∧ s.queue.length = 1 := by
   decide
@@ -192,7 +193,7 @@ theorem truncated_response_sticks :
 /-- F51 regression (fixed in the tree): a server that closes after its first response leaves the later requests
 with an errored entry each, in order, instead of hanging -/
 theorem closed_connection_yields_error_entries :
-    let servers : List Server := [⟨8101, [⟨200, none, lit "one", 0, true⟩]⟩]
+    let servers : List Server := [⟨8101, [⟨200, none, lit "one", 0, true, false⟩]⟩]
     let s := after false 8101 servers [⟨lit "GET", lit "/a", [], []⟩, ⟨lit "GET", lit "/b", [], []⟩, ⟨lit "GET", lit "/c", [], []⟩] [true, true, true, true]
     s.waited = false ∧ s.entries.map (·.errored) = [false, true, true] ∧ s.entries.map origin = [some 0, some 1, some 2] := by
   decide
